@@ -283,6 +283,31 @@ func c19GenVC(r *vhRng) string {
 		c19JoinPairs(c.voters), c19JoinList(c.par), c.tBlk, c.tNum, strings.Join(ops, ";"))
 }
 
+// c19GenVCL: a `vc` case in which one to three precommits carry a number that disagrees with the tree.
+func c19GenVCL(r *vhRng) string {
+	c := c19Draw(r)
+	if len(c.pcs) > 0 {
+		for k := 1 + r.Intn(3); k > 0; k-- {
+			i := r.Intn(len(c.pcs))
+			if r.Chance(1, 3) {
+				c.pcs[i].num = []uint64{0, 1, 2, 3, c.mask(), c.mask() >> 1, c.mask()>>1 + 1}[r.Intn(7)]
+			} else {
+				d := []uint64{1, 2, 3, 4, 5, 100}[r.Intn(6)]
+				if r.Bool() {
+					d = -d
+				}
+				c.pcs[i].num = (c.pcs[i].num + d) & c.mask()
+			}
+		}
+	}
+	var ops []string
+	for _, p := range c.pcs {
+		ops = append(ops, fmt.Sprintf("%d %d %d %d", p.blk, p.num, p.id, p.sig))
+	}
+	return fmt.Sprintf("vcl w=%d hp=%d ip=%d v=%s t=%s c=%d:%d|%s", c.w, 1+r.Intn(96), 1+r.Intn(88),
+		c19JoinPairs(c.voters), c19JoinList(c.par), c.tBlk, c.tNum, strings.Join(ops, ";"))
+}
+
 func c19GenJust(r *vhRng) string {
 	c := c19Draw(r)
 	n := uint64(len(c.par))
